@@ -986,14 +986,14 @@ func main() {
 		Mismatch: "C29_corr.mismatches", Scope: "Z", PerShard: 60}
 	r := &runner{run: run, st: st, sh: sh}
 	r.corpus()
-	r.random(rng, run.N(150, 1500))
-	r.closeScenarios(rng.Fork(), run.N(40, 600))
-	r.termScenarios(rng.Fork(), run.N(40, 600))
+	r.random(rng, run.N(150, 600))
+	r.closeScenarios(rng.Fork(), run.N(40, 400))
+	r.termScenarios(rng.Fork(), run.N(40, 400))
 	if run.Thorough() {
-		n1 := r.sweepSingle(true, 5, 40)
-		n2 := r.sweepSingle(false, 4, 20)
-		n3 := r.sweepInterleave(true, 25, 0)
-		n4 := r.sweepInterleave(false, 50, 6000)
+		n1 := r.sweepSingle(true, 5, 150)
+		n2 := r.sweepSingle(false, 4, 60)
+		n3 := r.sweepInterleave(true, 120, 0)
+		n4 := r.sweepInterleave(false, 150, 6000)
 		st.Extra["sweep_single_v1_len5"] = n1
 		st.Extra["sweep_single_v0_len4"] = n2
 		st.Extra["sweep_interleave_v1"] = n3
